@@ -118,6 +118,11 @@ class Expect:
         self.resumable_bits = self._resumable(root)
         self.serial_bits = 1 + self.active_bits + self.resumable_bits
         self.task_capacity = self.compo_prongs * 2
+        self.reverse_depth = self._height(root)
+
+    def _height(self, n):
+        """levels below and including n (leaf = 1): sizes the structure report's prefix buffer"""
+        return 1 + (max(self._height(k) for k in n.kids) if n.kids else 0)
 
     def _number(self, n):
         n.sid = len(self.states)
@@ -225,6 +230,11 @@ def emit_shape(idx, root, features, strategy_seed=0):
     sa("FSM::ORTHO_UNITS == %d" % ex.ortho_units, "ORTHO_UNITS == %d" % ex.ortho_units)
     sa("FSM::Apex::COMPO_PRONGS == %d" % ex.compo_prongs, "COMPO_PRONGS == %d" % ex.compo_prongs)
     sa("FSM::StateList::SIZE == %d && FSM::RegionList::SIZE == %d" % (ex.state_count, ex.region_count), "list sizes")
+    sa("FSM::Apex::REVERSE_DEPTH == %d" % ex.reverse_depth, "REVERSE_DEPTH == %d" % ex.reverse_depth)
+    # the counts that can exceed 255 are carried in the wide identifier type at every level (a narrower sibling wraps silently)
+    for cst in ("COMPO_PRONGS", "REVERSE_DEPTH"):
+        sa("sizeof(FSM::Apex::%s) == sizeof(hfsm2::Long) && sizeof(FSM::Apex::SubStates::%s) == sizeof(hfsm2::Long)" % (cst, cst), "type of %s is Long" % cst)
+    sa("sizeof(FSM::Apex::STATE_COUNT) == sizeof(hfsm2::Long)", "type of STATE_COUNT is Long")
     if "SERIALIZATION" in features:
         sa("FSM::ACTIVE_BITS == %d" % ex.active_bits, "ACTIVE_BITS == %d" % ex.active_bits)
         sa("FSM::RESUMABLE_BITS == %d" % ex.resumable_bits, "RESUMABLE_BITS == %d" % ex.resumable_bits)
